@@ -61,7 +61,7 @@ def neighbours(line):
     t = line.split()
     out = []
     if t[0] == "rpu":
-        seqs = [int(x[1:], 16) for x in t[3:] if x[0] == "v" and int(x[1:], 16) < G.SEQ_MAX - 1]
+        seqs = [int(x[1:], 16) for x in t[3:] if x[0] == "v" and int(x[1:], 16) < G.SEQ_MAX]
         wcfg = t[2]
         base = ["g%x" % s for s in seqs]
         cfgs = [(wcfg, 0), (wcfg, 1)]
@@ -78,7 +78,7 @@ def neighbours(line):
             tails = []
             for s in sorted(set(seqs)):
                 tails.append(["g%x" % s])
-                tails.append(["f%x" % (s + 1), "g%x" % (s + 1)] if s + 1 < G.SEQ_MAX - 1 else [])
+                tails.append(["f%x" % (s + 1), "g%x" % (s + 1)] if s + 1 < G.SEQ_MAX else [])
                 if s >= 1:
                     tails.append(["g%x" % (s - 1)])
                     tails.append(["g%x" % (s - 1), "g%x" % (s - 1)])
@@ -161,11 +161,10 @@ def main(run):
         fails = oracle(ln, co)
         if co.startswith("CRASH"):
             fails = ["the driver crashed (%s)" % co]
-        if ln.startswith("rpd") and not fails and "NOGEN" not in co:
+        spec_diff = False
+        if ln.startswith("rpd") and not fails and "NOGEN" not in co and spec.get(i) != "-":
             sv = [o.split(",")[0] for o in co.split()]
-            if spec.get(i, "").split() != sv and spec.get(i) != "-":
-                fails = ["verdicts differ from the RFC 8613 7.4 window specification: spec=%s impl=%s"
-                         % (spec.get(i), " ".join(sv))]
+            spec_diff = spec.get(i, "").split() != sv
         if fails:
             nviol += 1
             if nviol <= 3:
@@ -175,9 +174,13 @@ def main(run):
                 run.violation(what, "case: %s\nimpl: %s\nmodel (repaired code): %s\n\noriginal case: %s\nimpl: %s\n"
                               % (small, so[0], vlib.run_lines_robust(model, [small])[0][0], ln, co),
                               tag="oracle%d" % nviol)
-        elif mo != co:
+        elif mo != co or spec_diff:
+            # correspondence failure (model, or the specification the model is proved to refine,
+            # against the code) without a failure of the property itself on this input
             ndis += 1
             disagree.append(i)
+            if spec_diff and mo == co:
+                om[i] = "specification verdicts: " + spec.get(i, "")
     run.cov["oracle_failures"] = nviol
     run.cov["disagreements"] = ndis
 
